@@ -259,7 +259,8 @@ impl MultiChainTracker {
     }
 
     pub fn stats<B: Backend>(&self, sample: Tensor<B, 3>) -> Result<RunStats, Box<dyn Error>> {
-        let sample_data = sample.to_data();
+        // The summary is computed in f32 whatever the backend's float type is.
+        let sample_data = sample.to_data().convert::<f32>();
         let sample_ndarray =
             ArrayView3::from_shape(sample.dims(), sample_data.as_slice().unwrap())?;
         Ok(RunStats::from_f32_view(sample_ndarray))
